@@ -843,3 +843,38 @@ def c09(tr, acc, case):
             acc.violation({"mech": "collect_history_not_linearizable"},
                           f"buffer {buf}: no sequential order of the {len(ops)} collect operations explains the returned values "
                           f"{[(o['id'], o['call'], o['ret'], o['out']) for o in sorted(ops, key=lambda o: o['call'])]}", case)
+
+
+# ------------------------------------------------------------------ C11
+def norm_state(state):
+    """Comparable image of a BrokerState: queues, running work, collected events, waiters, running flag (timestamps dropped)."""
+    from vf import programs
+
+    def exc(e):
+        return None if e is None else f"{type(e).__name__}:{e}"
+
+    out = {"is_running": state.is_running, "workers": {}}
+    for name, w in state.workers.items():
+        out["workers"][name] = {
+            "queue": [(programs._ev_uid(x.event), x.attempts or 0, exc(x.last_exception), sorted(x.recovery_counts.items())) for x in w.queue],
+            "in_progress": sorted((x.worker_id, programs._ev_uid(x.event), x.attempts, exc(x.last_exception), sorted(x.recovery_counts.items()),
+                                   sorted((k, [programs._ev_uid(e) for e in v]) for k, v in x.shared_state.collected_events.items()),
+                                   sorted((wt.waiter_id, wt.resolved_event is not None, bool(wt.timed_out)) for wt in x.shared_state.collected_waiters))
+                                  for x in w.in_progress),
+            "collected": sorted((k, [programs._ev_uid(e) for e in v]) for k, v in w.collected_events.items()),
+            "waiters": sorted((x.waiter_id, programs._ev_uid(x.event), x.waiting_for_event.__name__, sorted((k, repr(v)) for k, v in x.requirements.items()),
+                               bool(x.has_requirements), None if x.resolved_event is None else programs._ev_uid(x.resolved_event), bool(x.timed_out))
+                              for x in w.collected_waiters),
+        }
+    return out
+
+
+def diff_state(a, b):
+    d = []
+    if a["is_running"] != b["is_running"]:
+        d.append(("is_running", a["is_running"], b["is_running"]))
+    for s in a["workers"]:
+        for k in ("queue", "in_progress", "collected", "waiters"):
+            if a["workers"][s][k] != b["workers"].get(s, {}).get(k):
+                d.append((s, k, a["workers"][s][k], b["workers"].get(s, {}).get(k)))
+    return d
